@@ -359,12 +359,20 @@ def rawServfail (qe : Nat) : Out :=
   { cut := { ka := 0, kn := 0, ke := 0, tc := false }, opt := none, len := qe, wire := qe,
     emitted := true }
 
+/-- `validQUICMsg`: a DoQ query that carries the edns-tcp-keepalive option is a protocol error
+(RFC 9250, 5.5.2).  `serveQUICStream` then closes the connection with DOQ_PROTOCOL_ERROR before
+the handler is called: nothing is written. -/
+def validQUICMsg : Option Opt → Bool
+  | none => true
+  | some ro => !hasCode codeKeepAlive ro.opts
+
 /-- The DNS message (if any) one query causes on the wire.  `draw`/`slack` belong to the first
 write, `draw2` to the SERVFAIL that TCP/DoT send when `packWithPrefix` refused the first one.
 Nothing written: plain UDP sends nothing, TCP/DoT close the connection, DoH answers HTTP 500;
 DoQ and DNSCrypt send a SERVFAIL (`legacy`: DNSCrypt skipped `normalize` for it). -/
 def respondG (legacy : Bool) (t : Transport) (cfgMax idleMs : Nat) (hdr : QHdr) (qe : Nat)
     (req : Option Opt) (h : Handler) (draw slack draw2 : Nat) : Option Out :=
+  if t = .doq ∧ validQUICMsg req = false then none else
   match serverResp hdr qe req h with
   | some r =>
     let o := serveG legacy t cfgMax idleMs req r draw slack
